@@ -422,6 +422,29 @@ func (e *CEnv) ident(name string) CVal {
 	if v, ok := e.bound[name]; ok {
 		return v
 	}
+	if name == "rangevalue" && e.loop != nil {
+		// the element of the ranged slice this iteration works on: the load through &s[rangeindex+1]
+		for b := range e.loop.body {
+			for _, ins := range b.Instrs {
+				u, ok := ins.(*ssa.UnOp)
+				if !ok || u.Op != token.MUL {
+					continue
+				}
+				ia, ok := u.X.(*ssa.IndexAddr)
+				if !ok {
+					continue
+				}
+				if bo, ok := ia.Index.(*ssa.BinOp); ok {
+					if phi, ok := bo.X.(*ssa.Phi); ok && phi.Comment == "rangeindex" && phi.Block() == e.loop.header {
+						if sv, done := e.fv.vals[u]; done {
+							return CVal{T: e.fv.term(sv), S: e.g().sortOf(u.Type()), Typ: u.Type()}
+						}
+					}
+				}
+			}
+		}
+		cfail("rangevalue: no range element loaded in this loop yet")
+	}
 	if v, ok := e.vars[name]; ok {
 		return v
 	}
